@@ -374,6 +374,15 @@ class CopyAnalysis:
         return out
 
 
+def _anc09(mod: Any, n: ast.AST, stop: Any) -> List[ast.AST]:
+    out = []
+    p = mod.parents.get(n)
+    while p is not None and p is not stop:
+        out.append(p)
+        p = mod.parents.get(p)
+    return out
+
+
 def analyse_copy(ctx: Any, prog: Program, modname: str, clsname: str, meth: str, extra_ok: Dict[str, Any]) -> None:
     mod = prog.module(modname)
     fn = mod.func(f'{clsname}.{meth}')
@@ -492,6 +501,23 @@ def analyse_copy(ctx: Any, prog: Program, modname: str, clsname: str, meth: str,
                     if on_value:
                         ctx.check('C09.P1', False, mod, ie, f'{qual} carries `{f}` over only when `{U(ie.test)[:60]}` is {"false" if arms_read[1] else "true"}: for the other values the copy gets '
                                   f'`{U(ie.orelse if arms_read[0] else ie.body)[:30]}` (the constructor then makes up its own) and its export differs from the original', func=qual, text=f'{clsname}.{f} carried over unconditionally')
+    # P1 (conditional carry-over, statement form): `if <test on self.f's value>: result.f = copy of self.f` carries the field only for some of
+    # its values; apart from the presence test (`is not None`) and the caller's switches the assignment is unconditional
+    for st_ in [a for a in walk_no_nested(fn) if isinstance(a, ast.Assign) and any(isinstance(t, ast.Attribute) and isinstance(t.value, ast.Name) and t.value.id not in ('self', 'cls') for t in a.targets)]:
+        for t_ in st_.targets:
+            if not (isinstance(t_, ast.Attribute) and t_.attr in fields and t_.attr in ca.fields_read(st_.value)):
+                continue
+            for g_ in [a for a in _anc09(mod, st_, fn) if isinstance(a, ast.If)]:
+                other_arm = g_.orelse if any(st_ is y for b in g_.body for y in ast.walk(b)) else g_.body
+                if any(isinstance(a2, ast.Assign) and any(isinstance(t2, ast.Attribute) and t2.attr == t_.attr for t2 in a2.targets) for b in other_arm for a2 in ast.walk(b)):
+                    continue            # both arms store the field (a dispatch on its type), nothing is left out
+                conj_ = g_.test.values if isinstance(g_.test, ast.BoolOp) and isinstance(g_.test.op, ast.And) else [g_.test]
+                for cj_ in conj_:
+                    reads_f = any(isinstance(x, ast.Attribute) and dotted(x.value) == 'self' and x.attr == t_.attr for x in ast.walk(cj_))
+                    presence_ = isinstance(cj_, ast.Compare) and len(cj_.ops) == 1 and isinstance(cj_.ops[0], (ast.Is, ast.IsNot)) and isinstance(cj_.comparators[0], ast.Constant) and cj_.comparators[0].value is None
+                    if reads_f and not presence_:
+                        ctx.check('C09.P1', False, mod, g_, f'{qual} copies `{t_.attr}` only when `{U(cj_)[:60]}`: for the other values of the field the copy keeps what the constructor made up, and its export differs from the original',
+                                  func=qual, text=f'{clsname}.{t_.attr} carried over unconditionally')
     # ---- P2 ----------------------------------------------------------------------------------------
     for f, srcs in flows.items():
         ann = types.get(f)
@@ -979,6 +1005,7 @@ def run(ctx: Any, prog: Program) -> None:
 
 
 MUTANTS = [
+    {'id': 'allowed_verts_copied_only_if_customised', 'file': 'vmf.py', 'find': "            if self.disp_allowed_vert is not None:", 'replace': "            if self.disp_allowed_vert is not None and any(v != -1 for v in self.disp_allowed_vert[:1]):", 'expect': 'C09.P1', 'refuse_ok': True, 'note': 'round 14'},
     {'id': 'copy_values_returns_getstate', 'file': 'vmf.py', 'find': "        return [FixupValue(fix.var, fix.value, fix.id) for fix in self._fixup.values()]", 'replace': "        return self.__getstate__()", 'expect': 'C09.P2', 'note': 'round 13'},
     {'id': 'keyvalues_root_by_truthiness', 'file': 'keyvalues.py', 'find': "        return self._real_name is None\n", 'replace': "        return not self._real_name\n", 'expect': 'C09.P1', 'note': 'round 12', 'refuse_ok': True},
     {'id': 'solid_copy_group_only_same_map', 'file': 'vmf.py', 'find': "            self.hidden if keep_vis else False,\n            self.group_id,", 'replace': "            self.hidden if keep_vis else False,\n            self.group_id if vmf_file is None or vmf_file is self.map else None,", 'expect': 'C09.P1', 'note': 'round 11: carry-over conditional on the destination map'},
